@@ -649,3 +649,66 @@ Proof.
   - exists g, d, k, m. repeat split; try assumption. rewrite Hb. apply curlb_cinit.
   - cbn in Hr. discriminate.
 Qed.
+
+(** * service discovery reports: the pool's list is determined by the LAST report *)
+Lemma watch_list_app static tags reports r :
+  watch_list static tags (reports ++ [r]) = pool_list static (tagged tags r).
+Proof. unfold watch_list. rewrite fold_left_app. reflexivity. Qed.
+
+Lemma watch_list_last static tags reports :
+  watch_list static tags reports =
+  match reports with
+  | [] => static
+  | _ => pool_list static (tagged tags (last reports []))
+  end.
+Proof.
+  induction reports as [|r0 t _] using rev_ind; [reflexivity|].
+  rewrite watch_list_app, last_last. destruct t; reflexivity.
+Qed.
+
+(** * a retried request: an attempt that loads immediately before choosing uses the list that is
+    current at that moment *)
+Lemma last_cons_default {A} (t : list A) : forall a x y, last (a :: t) x = last (a :: t) y.
+Proof.
+  induction t as [|b t IH]; intros a x y; [reflexivity|].
+  change (last (a :: b :: t) x) with (last (b :: t) x). change (last (a :: b :: t) y) with (last (b :: t) y). apply IH.
+Qed.
+
+Lemma nth_error_last {A} (l : list A) : forall x, nth_error (x :: l) (List.length l) = Some (last l x).
+Proof.
+  induction l as [|y t IH]; intro x; [reflexivity|].
+  cbn [List.length nth_error]. rewrite IH. f_equal.
+  destruct t as [|a t]; [reflexivity|]. change (last (y :: a :: t) x) with (last (a :: t) x). apply last_cons_default.
+Qed.
+
+Lemma replaced_firstn_load g : forall es j,
+  nth_error es j = Some (CLoad g) -> replaced (firstn (S j) es) = replaced (firstn j es).
+Proof.
+  induction es as [|e t IH]; intros [|j] Hl; try discriminate.
+  - cbn in Hl. inversion Hl; subst. destruct t; reflexivity.
+  - cbn [nth_error] in Hl. specialize (IH j Hl).
+    change (firstn (S (S j)) (e :: t)) with (e :: firstn (S j) t).
+    change (firstn (S j) (e :: t)) with (e :: firstn j t).
+    rewrite (replaced_cons e (firstn (S j) t)), (replaced_cons e (firstn j t)), IH. reflexivity.
+Qed.
+
+Lemma attempt_uses_current_list q p l0 es os fin j g d k b o :
+  crun q p (cinit l0) es = (os, fin) ->
+  nth_error es j = Some (CLoad g) ->
+  nth_error es (S j) = Some (CChoose g d k) ->
+  nth_error os (S j) = Some (Some (b, o)) ->
+  b = List.length (replaced (firstn j es)) /\
+  exists c, o = choose q p (last (replaced (firstn j es)) l0) {| tk := c; dr := d; ky := k |}.
+Proof.
+  intros H Hl Hc Ho.
+  destruct (replace_choice_current_at_load q p l0 es os fin (S j) b o H Ho) as (g' & d' & k' & m & H1 & Hm & Hlm & Hno & Hb).
+  rewrite Hc in H1. inversion H1; subst g' d' k'. clear H1.
+  assert (m = j).
+  { destruct (Nat.eq_dec m j) as [E|E]; [exact E|]. exfalso. apply (Hno j); [lia|exact Hl]. }
+  subst m. split; [exact Hb|].
+  destruct (crun_choice q p es (cinit l0) os fin H (S j) b o Ho) as (l & g' & c & d' & k' & H1 & H2 & H3).
+  rewrite Hc in H1. inversion H1; subst g' d' k'. exists c. rewrite H3. f_equal.
+  cbn [cinit lbs map fst app] in H2.
+  pose proof (replaced_firstn_load g es j Hl) as E.
+  rewrite E, Hb in H2. rewrite nth_error_last in H2. inversion H2. reflexivity.
+Qed.
